@@ -5,6 +5,30 @@ import json, os
 HERE = os.path.dirname(os.path.dirname(os.path.abspath(__file__)))
 
 CLAIMED = {
+    "C18": dict(
+        text="spec/Archive.tla's Abort action with AbortLeavesRecords/AbortedStaysAborted/CompleteMeansAllSaved (TLC, serial and breadth-first "
+        "lifecycles) and spec/ArchiveTrace.tla's AbortDiff. Every (member, line) abort point in groups of 1-4 csvpaths, for serial and "
+        "breadth-first methods, is injected through the DSL (line_number() == K -> @boom = mod(5, 0) under validation-mode raise); the "
+        "recorded manager calls are replayed as Archive actions and the projection must show: exception reached the caller, every started "
+        "member saved with readable meta/vars/errors, the aborting error with its line number in errors.json, completed false, earlier members "
+        "complete (C09 agreement), run manifest not complete, input stores byte-identical; a follow-up run on the same instance must "
+        "archive normally into its own fresh directory without touching the aborted run.",
+        note="Trusted: TLC; the projector; fault position chosen through the DSL. Known finding: an abort on the last line of the scan leaves completed: true.",
+        technique="fault enumeration through the DSL; recorded lifecycle and archive projection validated by TLC against the TLA+ Archive spec",
+        ref="7 (C18)",
+    ),
+    "C20": dict(
+        text="spec/Chain.tla: Input(m) is what stage m-1 collected iff stage m declares source-mode preceding; TLC checks Composition (chain == "
+        "composition of its stages) and NoLeak over all abstract filter stages. spec/ChainTrace.tla validates recorded runs: the records each "
+        "member was actually shown are a prefix of Chain!Input, the member manifest names the right actual_data_file, every "
+        "$name.variables.v[.key] / $name.headers.h reference evaluates to RefExpected over the referenced member's most recent run (1-3 runs, "
+        "data changed between runs), and a results reference used as file name replays the referenced data.csv. Each stage's behaviour on the "
+        "required input is validated by RunTrace.",
+        note="Trusted: TLC; the referenced group has one member. Known finding: a preceding member whose predecessor collected nothing aborts with FileNotFoundError.",
+        technique="TLA+ chain spec model-checked with TLC; recorded stage inputs and reference values validated by TLC against the spec",
+        ref="7 (C20)",
+    ),
+
     "C08": dict(
         text="spec/Group.tla: members x schedule with the GENERAL interleaving as Next; TLC checks Solo (a member's results are a function of "
         "itself and of the records it consumed) over all interleavings and a negative control with a shared flag must violate it; SerialStep "
